@@ -39,9 +39,9 @@ def hits (rs : List Rule) (q : Request) (tags : List Str) : List Rule :=
 
 /-- candidates after the exception filter, with parsed priorities -/
 def redirectCands (matched : List Rule) : List (Str × Int) :=
-  let exceptions := (matched.filter Rule.isException).filterMap (·.modifier)
-  (((matched.filter (fun r => !r.isException)).filterMap (·.modifier)).filter
-    (fun m => !exceptions.contains m)).map parseRedirect
+  let exceptions := ((matched.filter Rule.isException).filterMap (·.modifier)).map (fun m => (parseRedirect m).1)
+  (((matched.filter (fun r => !r.isException)).filterMap (·.modifier)).map parseRedirect).filter
+    (fun c => !exceptions.contains c.1)
 
 /-- C13: the admissible redirect resources — those named by *a* maximum-priority matching redirect
     option that no matching redirect exception names (ties leave a choice to the implementation) -/
@@ -90,5 +90,9 @@ def caseOK (rules : List Rule) (q : Request) : Bool :=
   rules.all (fun a => rules.all (fun b => a.id != b.id || a == b)) &&
   idsSeparate rules && q.probe.contains 0 && rules.all (fun r => tokenSound r q) &&
   rules.all (fun r => !(r.isRedirect && r.isRemoveparam))
+
+/-- a loaded rule never carries an empty alternative list (only fusion builds alternative lists, and
+    never an empty one); hypothesis of the optimised-engine theorem, evaluated per case -/
+def wfRules (rules : List Rule) : Bool := rules.all fun f => f.filter != .anyOf []
 
 end Adb.Net.Spec
